@@ -236,6 +236,53 @@ theorem dhcp_parseOpts_optsBytes (os : List Opt) (hc : ∀ o ∈ os, Dhcp.Canon 
         cases x with
         | mk c l d => simp only at hl; subst hl; rfl
 
+/-- the round trip *without* the representability predicate: every option list whose codes fit a byte and whose
+    length fields equal the data lengths.  False of the code (and of the wire format): known finding KF-WApp-6. -/
+def dhcp_tlv_roundtrip_all : Prop :=
+  ∀ os : List Opt, (∀ o ∈ os, o.code < 256 ∧ Dhcp.single o.code = false ∧ o.lenField = o.data.length) → ∀ fuel : Nat,
+    (Dhcp.optsBytes os).length ≤ fuel → Dhcp.parseOpts fuel (Cursor.ofBytes (Dhcp.optsBytes os)) = .ok os
+
+/-- witness: one option (code 60) with 256 data bytes — its length byte is written as 0, the parser reads an empty
+    option 60 followed by 256 PADs (replayed on the real code by `known_finding_probes` in checks/wire_gen_app.py) -/
+theorem dhcp_long_option_breaks (d : Bytes) (hd : d.length = 256) (fuel : Nat) :
+    Dhcp.parseOpts (fuel + 1) (Cursor.ofBytes (Dhcp.optsBytes [⟨60, 256, d⟩])) ≠ .ok [⟨60, 256, d⟩] := by
+  intro h
+  have hs60 : Dhcp.single 60 = false := by decide
+  have hshape : Dhcp.optsBytes [⟨60, 256, d⟩] = UInt8.ofNat 60 :: (UInt8.ofNat 256 :: (([] : Bytes) ++ d)) := by
+    simp [Dhcp.optsBytes, Dhcp.optBytes, hs60]
+  rw [hshape] at h
+  unfold Dhcp.parseOpts at h
+  have hne : (Cursor.ofBytes (UInt8.ofNat 60 :: (UInt8.ofNat 256 :: (([] : Bytes) ++ d)))).toBool = true := by
+    rw [ofBytes_toBool]; rfl
+  have h60 : Cursor.beNat [UInt8.ofNat 60] = 60 := by decide
+  have h256 : Cursor.beNat [UInt8.ofNat 256] = ([] : Bytes).length := by decide
+  simp only [hne, Bool.not_true, Bool.false_eq_true, if_false, ofBytes_readU8_cons, bind, Out.bind, h60,
+    Dhcp.readLen, hs60, Bool.not_false, if_true, h256, ofBytes_canRead_append, ofBytes_peek_append,
+    ofBytes_skip_append] at h
+  cases hr : Dhcp.parseOpts fuel (Cursor.ofBytes d) with
+  | ok rest =>
+    simp only [hr, Out.pure_eq] at h
+    injection h with h
+    injection h with h _
+    injection h with _ hl _
+    simp at hl
+  | throw e => simp only [hr] at h; cases h
+  | fault s => simp only [hr] at h; cases h
+
+theorem dhcp_tlv_roundtrip_all_fails : ¬ dhcp_tlv_roundtrip_all := by
+  intro hall
+  have hlen : (List.replicate 256 (0 : UInt8)).length = 256 := List.length_replicate
+  generalize List.replicate 256 (0 : UInt8) = d at hlen
+  have h := hall [⟨60, 256, d⟩]
+    (by intro o ho; simp only [List.mem_singleton] at ho; subst ho; exact ⟨by show 60 < 256; omega, by show Dhcp.single 60 = false; decide, hlen.symm⟩) 258
+    (by simp [Dhcp.optsBytes, Dhcp.optBytes, Dhcp.single, hlen])
+  exact dhcp_long_option_breaks d hlen 257 h
+
+/-- the partial theorem: the round trip for representable option lists (`Dhcp.Canon`) -/
+theorem dhcp_tlv_roundtrip_partial (os : List Opt) (hc : ∀ o ∈ os, Dhcp.Canon o) (fuel : Nat)
+    (hf : (Dhcp.optsBytes os).length ≤ fuel) :
+    Dhcp.parseOpts fuel (Cursor.ofBytes (Dhcp.optsBytes os)) = .ok os := dhcp_parseOpts_optsBytes os hc fuel hf
+
 /-- **C03 / DHCP**: parsing `bootp header ++ magic cookie ++ options` as written gives back the header, the option
     list (PAD and END included, in place) and the cached size -/
 theorem dhcp_reparse (d : Dhcp) (hi : d.Inv) (hc : ∀ o ∈ d.opts, Dhcp.Canon o) (hsmall : d.size < 4294967296) :
